@@ -102,7 +102,9 @@ func tokenize(s string) []string {
 
 var gSchemesSpecial = []string{"http", "https", "ws", "wss", "ftp", "file"}
 var gSchemes = []string{"http", "https", "ws", "wss", "ftp", "file", "foo", "data", "mailto", "a+b.c-d", "HTTP", "javascript", "File", "wS", "non-special", "sc", "h2", "gopher", "about", "blob"}
-var gBadSchemes = []string{"", "1a", "a b", "http:", "htt\tp", "fi le", "file:x", "h:ttp", ":", "é", "a_b", "+a", "a\x00", "http\xff", "ws:80"}
+var gBadSchemes = []string{"", "1a", "a b", "http:", "htt\tp", "fi le", "file:x", "h:ttp", ":", "é", "a_b", "+a", "a\x00", "http\xff", "ws:80",
+	// code points whose simple case mappings land on ASCII letters (U+0130 -> i, U+212A -> k, U+017F -> S, U+0131 -> I)
+	"F\u0130LE", "s\u212a", "w\u017f", "f\u0131le", "\u212a", "HTTP\u017f", "ws\u212a"}
 var gHostsASCII = []string{"example.com", "EXAMPLE.com", "1.2.3.4", "0x7f.1", "[::1]", "[1:2:3:4:5:6:7:8]", "[::1.2.3.4]", "localhost", "LocalHost", "a.b.c", "h", "", "ex%41mple.org", "1.2.3", "999", "0.0.0.0", "x_y", "h.", "h..", "0", "00", "0x", "0X1", "08", "09", "4294967295", "4294967296", "1.2.3.256", "256.1", "1..2", "1.2.", "a.1.", "a..", ".", "..", "!$&'()*+,;=", "a~b", "A-Z.", "[::]", "[::ffff:1.2.3.4]", "[0:0:0:1:0:0:0:0]", "[1:0:0:2:0:0:0:3]", "[2001:DB8::1]", "[0:0:0:0:0:0:0:0]", "[1::]", "[::1:0:0:0:0]", "192.168.0.1", "0300.0250.0.1", "127.1", "1.2.3.4.", "www.example.com", "a-b.c", "h1", "127.0.0.1", "0x7f000001", "10.0.0.1", "255.255.255.255", "%6c%6F%63alhost", "%31.2.3.4", "a%2eb"}
 var gHostsBad = []string{"a b", "a:b", "%00", "[", "a]", "[::g]", "-1", "1.-2", "0x+f", "[[::1]]", "[::1]]", "[::1", "1.2.3.4.5", "0x100000000", "h/p", "h?q", "h#f", "h\\x", "u@h", "%", "%zz", "a%2Fb", "a%25b", "h\t", "\nh", " h", "h ", "a<b", "a^b", "a|b", "[1::2::3]", "[1:2:3:4:5:6:7]", "0.0x.0", "1.0x1g", "\x00", "\x7f", "h\x80", "[::1.2.3]", "[::1.2.3.4.5]", "[::01.2.3.4]", "[1:2:3:4:5:6:7:8:9]", "[:1]", "[1:]", "[12345::]", "[::1.2.3.256]", "[]", "a..b", "a`b", "a{b}", "a\"b", "%5B::1%5D", "1.2.3.4x", "x.0x", "x.1e3", "+1", "1.+2", "9672950000000000000a", "99999999999999999999x", "0x10000000000000000g", "07777777777777777777778", "1.99999999999999999999z", "18446744073709551616", "0x7fffffffffffffff", "9223372036854775808"}
 var gHostsIDNA = []string{"é.com", "xn--a", "XN--nxasmq6b.com", "www.xn--x.com", "xn--nxasmq6b", "a≠b", "Ｅｘａｍｐｌｅ.com", "faß.de", "a\u00adb.com", "\u200d.x", "xn--", "日本語.jp", "a≮b", "%C3%A9.com", "a\U0001F600b"}
@@ -115,7 +117,7 @@ var gUsers = []string{"", "u", "u:p", "a@b", "a:b:c", "é", "%", " ", "/?#", "%4
 var gOpaque = []string{"", "x", "text/plain,hi there", "a b", "x  ", "  ", "/..", "a/b", "é", "\x00", "%zz", "x?", "x#", "a@b.c", "blank", " ", "x \t ", "%20 ", "..", "x  y"}
 var gNames = []string{"a", "b", "k", "", "a b", "é", "x", "a&b", "c=d", "e+f", "%41", "100%", "'", "#", "\x00", "z\xff", "ab", "~!*()", "/?:@", "[]", "\U0001F600", "A", "aa", "B", "a\x01", " ", "=", "&", "+", "%", "a=", "ä", "z", "0", "-", "_", "key", "a.b"}
 var gVals = []string{"", "1", "v w", "é", "2", "c=d", "a&b", "1+1", "%2B", "%", "'", "#f", "\"<>", "b", "bc", "c", "\x00", "\xff", " ", "+", "&", "=", "%25", "10", "9", "v", "\U0001F600", "a\tb", "x\ny"}
-var gHostile = []string{"\x00", "\x01", "\x1f", "\x7f", "\x80", "\xff", "\xfe\xff", "\xc3", "\xe2\x82", "%", "%%", "%a", "%zz", "%\xff", "\t", "\n", "\r", " ", "\u00a0", "\ufffd", "\ufeff", "\U0010ffff", "\ufdd0", "\u2028", "é", "\U0001F600", "\\", "^", "|", "`", "{", "}", "<", ">", "\"", "'", "@", ":", "/", "?", "#", "[", "]", "&", "=", "+", ";", ","}
+var gHostile = []string{"\u0130", "\u212a", "\u017f", "\u0131", "\x00", "\x01", "\x1f", "\x7f", "\x80", "\xff", "\xfe\xff", "\xc3", "\xe2\x82", "%", "%%", "%a", "%zz", "%\xff", "\t", "\n", "\r", " ", "\u00a0", "\ufffd", "\ufeff", "\U0010ffff", "\ufdd0", "\u2028", "é", "\U0001F600", "\\", "^", "|", "`", "{", "}", "<", ">", "\"", "'", "@", ":", "/", "?", "#", "[", "]", "&", "=", "+", ";", ","}
 
 type Gen struct {
 	r       *RNG
@@ -374,7 +376,63 @@ func (g *Gen) Base() string {
 
 // SetterValue draws a value for setter w (index into setterNames): valid for this component /
 // valid for a neighbouring component / hostile / empty / from the WPT setter vectors.
+var gPlain = []string{"a", "b", "name", "value", "x1", "O'Brien", "utm_source", "newsletter", "k", "v", "-", ".", "_", "~", "!", "*", "(", ")", "'", "&", "=", ";", ",", "$", "+", ":", "@", "/", "1", "42", "A", "Z"}
+
+// longClean builds a value of typical length classes (beyond 16/32/64/128/256 bytes) out of plain
+// ASCII URL code points only: fast paths and size limits are keyed on length and on "nothing needs
+// encoding", which dictionary entries of a few bytes with hostile bytes in them never satisfy.
+func (g *Gen) longClean(w int) string {
+	target := []int{17, 33, 40, 65, 100, 129, 257, 300}[g.r.Intn(8)]
+	var sb strings.Builder
+	switch w {
+	case 7:
+		sb.WriteString(g.pick([]string{"", "?"}))
+	case 8:
+		sb.WriteString(g.pick([]string{"", "#"}))
+	case 6:
+		sb.WriteString("/")
+	}
+	for sb.Len() < target {
+		t := g.pick(gPlain)
+		if (w == 3 || w == 4 || w == 0 || w == 5) && !(t[0] >= 'a' && t[0] <= 'z' || t[0] >= '0' && t[0] <= '9' || t == "." || t == "-") {
+			continue
+		}
+		sb.WriteString(t)
+	}
+	return sb.String()
+}
+
+// hugeValue: lengths just beyond the limits people hard-code (2 KiB, 4 KiB, 8 KiB, 64 KiB, 1 MiB).
+func (g *Gen) hugeValue(w int) (string, bool) {
+	if w < 6 {
+		// only pathname, search and hash: re-parsing a URL with a 1 MiB username takes 80 s (the
+		// quadratic credential handling is C20's business), hosts and schemes are similar
+		return "", false
+	}
+	k := g.r.Intn(400_000)
+	n := 0
+	switch {
+	case k < 20:
+		n = []int{2049, 4097, 8193}[g.r.Intn(3)]
+	case k < 22:
+		n = 65537
+	case k < 23:
+		n = 1<<20 + 1 + g.r.Intn(64)
+	default:
+		return "", false
+	}
+	// one long run of a plain character: many segments or many parameters would hit the library's
+	// quadratic serializers (C20's business) and take minutes
+	return strings.Repeat("a", n), true
+}
+
 func (g *Gen) SetterValue(w int) string {
+	if v, ok := g.hugeValue(w); ok {
+		return v
+	}
+	if g.r.Chance(1, 16) {
+		return g.longClean(w)
+	}
 	if g.r.Chance(1, 6) && len(corpusSetVals[w]) > 0 {
 		return g.pick(corpusSetVals[w])
 	}
